@@ -44,6 +44,7 @@ class ParseResult:
         plugins: Sequence = (),
         random_references: Sequence = (),
         version: int = None,
+        template_nicknames: Mapping = None,
     ):
         self.options = options
         self.tables = tables
@@ -52,6 +53,8 @@ class ParseResult:
         self.plugins = plugins
         self.version = version
         self.random_references = random_references or []
+        # nickname -> table name for every template, nested and hidden ones too
+        self.template_nicknames = dict(template_nicknames or {})
 
 
 class TableInfo:
@@ -877,4 +880,10 @@ def parse_recipe(
         plugins=context.plugins,
         version=context.version,
         random_references=context.random_references,
+        template_nicknames={
+            template.nickname: template.tablename
+            for table_info in context.table_infos.values()
+            for template in table_info._templates
+            if template.nickname
+        },
     )
